@@ -32,6 +32,87 @@ def attr_reads(func, var="number_format"):
     return {n.attr for n in ast.walk(func) if isinstance(n, ast.Attribute) and isinstance(n.value, ast.Name) and n.value.id == var}
 
 
+def check_fraction_parts(repo, rep):
+    """_format_fraction_parts_to(whole, n, d): on every path the text denotes whole + n/d.
+
+    Paths are enumerated with their branch outcomes (conditional expressions are split as well); the returned string is
+    reduced to a template over the three parameters; a template that omits a part is only correct under a guard that
+    makes the part vanish (``numerator == 0`` for the fraction, ``whole > 0`` false for the whole part)."""
+    import itertools
+
+    from ..symexec import Straight, body_paths
+    f = repo.func("cell.py", "_format_fraction_parts_to")
+    params = [a.arg for a in f.args.args]
+    if len(params) != 3:
+        raise AnalysisError("_format_fraction_parts_to: parameter list changed")
+    W, N, D = params
+    sl = Straight(f)
+
+    def pieces(e, conds):
+        """Yield (template string, extra conditions) alternatives for a string expression."""
+        if isinstance(e, ast.Constant) and isinstance(e.value, str):
+            return [(e.value, [])]
+        if isinstance(e, ast.Name) and e.id in params:
+            return [("{" + e.id + "}", [])]
+        if isinstance(e, ast.Call) and call_name(e) == "str" and len(e.args) == 1:
+            return pieces(e.args[0], conds)
+        if isinstance(e, ast.JoinedStr):
+            alts = [("", [])]
+            for v in e.values:
+                sub = pieces(v.value, conds) if isinstance(v, ast.FormattedValue) else pieces(v, conds)
+                alts = [(a + b, ca + cb) for a, ca in alts for b, cb in sub]
+            return alts
+        if isinstance(e, ast.IfExp):
+            return [(t, c + [(U(e.test).replace(" ", ""), True)]) for t, c in pieces(e.body, conds)] + \
+                   [(t, c + [(U(e.test).replace(" ", ""), False)]) for t, c in pieces(e.orelse, conds)]
+        if isinstance(e, ast.BinOp) and isinstance(e.op, ast.Add):
+            return [(a + b, ca + cb) for a, ca in pieces(e.left, conds) for b, cb in pieces(e.right, conds)]
+        if isinstance(e, ast.BoolOp) and isinstance(e.op, ast.Or) and len(e.values) == 2:
+            out = []
+            for a, ca in pieces(e.values[0], conds):
+                out += [(a, ca)] if a else [(b, ca + cb) for b, cb in pieces(e.values[1], conds)]
+            return out
+        if isinstance(e, ast.Call) and isinstance(e.func, ast.Attribute) and e.func.attr in ("rstrip", "strip", "lstrip") and not e.args:
+            return [(getattr(t, e.func.attr)(), c) for t, c in pieces(e.func.value, conds)]
+        raise AnalysisError(f"_format_fraction_parts_to: text expression `{U(e)[:60]}` not understood")
+
+    n_paths = 0
+    bad = []
+    for conds, steps, end in body_paths(f.body):
+        if end != "return":
+            bad.append("a path ends without returning a text")
+            continue
+        ret = steps[-1]
+        cs = [(U(sl.at(ret, t)).replace(" ", ""), o) for t, o in conds]
+        for tmpl, extra in pieces(sl.at(ret, ret.value), cs):
+            n_paths += 1
+            allc = cs + extra
+            # contradictory alternatives (the same test taken both ways) are infeasible
+            if any((t, not o) in allc for t, o in allc):
+                continue
+            has = lambda t, o: (t, o) in allc  # noqa: E731
+            whole_gone = has(f"{W}>0", False) or has(f"{W}==0", True) or has(f"{W}<=0", True)
+            frac_gone = has(f"{N}==0", True) or has(f"{N}!=0", False) or has(f"not{N}", True)
+            carry = has(f"{N}=={D}", True) or has(f"{D}=={N}", True)
+            ok = None
+            if tmpl == "{%s} {%s}/{%s}" % (W, N, D):
+                ok = True
+            elif tmpl == "{%s}" % W:
+                ok = frac_gone
+            elif tmpl == "{%s}/{%s}" % (N, D):
+                ok = whole_gone
+            elif tmpl == "0":
+                ok = whole_gone and frac_gone
+            elif tmpl == "1":
+                ok = whole_gone and carry
+            if ok is None:
+                bad.append(f"text `{tmpl}` is not a rendering of whole + n/d")
+            elif not ok:
+                bad.append(f"text `{tmpl}` under {[(t, o) for t, o in allc]} drops a part that is not known to be zero")
+    rep.ob("C13.R4", f, f"_format_fraction_parts_to: each of the {n_paths} path texts denotes whole + numerator/denominator", not bad,
+           "; ".join(bad[:2]) + (": the displayed fraction differs from the stored value (e.g. the unit carried by rounding is lost)" if bad else ""), key="C13.R4@fraction-parts")
+
+
 def run(repo, rep, tier):
     consts_tree = repo.tree("constants.py")
     afp_node = repo.module_assign("constants.py", "ALLOWED_FORMATTING_PARAMETERS")
@@ -206,6 +287,7 @@ def run(repo, rep, tier):
     s = U(f2).replace(" ", "")
     ok = "whole=int(value)" in s and "numerator=round(denominator*(value-whole))" in s
     rep.ob("C13.R4", f2, "fixed-denominator fraction: numerator = round(denominator * fractional part)", ok, "", key="C13.R4@fraction-fixed")
+    rep.sub(check_fraction_parts, repo, rep)
     rep.floor("C13.R1", 40)
     rep.floor("C13.R2", 6)
     rep.floor("C13.R3", 4)
@@ -213,6 +295,29 @@ def run(repo, rep, tier):
 
 
 VARIANTS = [
+    M("fraction-carry-lost", "cell.py", """    if whole > 0:
+        if numerator == 0:
+            return str(whole)
+        return f"{whole} {numerator}/{denominator}"
+    if numerator == 0:
+        return "0"
+""", """    fraction = "" if numerator % denominator == 0 else f"{numerator}/{denominator}"
+    if whole > 0:
+        return f"{whole} {fraction}".rstrip()
+    if numerator == 0:
+        return "0"
+""", "C13.R4"),
+    T("fraction-parts-reordered", "cell.py", """    if whole > 0:
+        if numerator == 0:
+            return str(whole)
+        return f"{whole} {numerator}/{denominator}"
+    if numerator == 0:
+        return "0"
+""", """    if numerator == 0:
+        return str(whole) if whole > 0 else "0"
+    if whole > 0:
+        return f"{whole} {numerator}/{denominator}"
+"""),
     M("revert-fix-strip", "cell.py", "        return f\"{symbol}\\t({_format_decimal(abs(value), number_format)})\"\n    formatted_value = _format_decimal(value, number_format)\n",
       "        formatted_value = _format_decimal(value, number_format)\n        return f\"{symbol}\\t({formatted_value[1:]})\"\n    formatted_value = _format_decimal(value, number_format)\n", "C13.R2"),
     M("number-loses-decimal-places", "constants.py", "    FormattingType.NUMBER: [\n        \"decimal_places\",\n", "    FormattingType.NUMBER: [\n", "C13.R1"),
